@@ -551,4 +551,202 @@ theorem convertOn_eq (lower : Str → Str) (wb : WB) (v : View) (w0 : List W) :
       Bool.false_eq_true]
 
 
+/-! ### unlabeled choices -/
+
+theorem choiceListWarnings_mem : ∀ (opts : List (Nat × PRow)) (ws : List W), choiceListWarnings opts = .ok ws →
+    ∀ w, w ∈ ws ↔ ∃ nr ∈ opts, keyIn nr.2 "label" = false ∧ w = W.choiceNoLabel nr.1
+  | [], ws, h, w => by simp [choiceListWarnings] at h; subst h; simp
+  | (n, r) :: rest, ws, h, w => by
+    unfold choiceListWarnings at h
+    split at h
+    · cases h
+    · cases hr : choiceListWarnings rest with
+      | error e => simp [hr] at h
+      | ok ws' =>
+        simp only [hr, Except.ok.injEq] at h
+        have ih := choiceListWarnings_mem rest ws' hr w
+        subst h
+        by_cases hl : keyIn r "label" = true
+        · simp [hl, ih]
+        · have hl' : keyIn r "label" = false := by simpa using hl
+          simp [hl', ih]
+
+theorem choicesWarnings_mem : ∀ (gs : List (Str × List (Nat × PRow))) (ws : List W), choicesWarnings gs = .ok ws →
+    ∀ w, w ∈ ws ↔ ∃ g ∈ gs, ∃ nr ∈ g.2, keyIn nr.2 "label" = false ∧ w = W.choiceNoLabel nr.1
+  | [], ws, h, w => by simp [choicesWarnings] at h; subst h; simp
+  | (ln, opts) :: rest, ws, h, w => by
+    unfold choicesWarnings at h
+    cases h1 : choiceListWarnings opts with
+    | error e => simp [h1] at h
+    | ok w1 =>
+      cases h2 : choicesWarnings rest with
+      | error e => simp [h1, h2] at h
+      | ok w2 =>
+        simp only [h1, h2, Except.ok.injEq] at h
+        subst h
+        simp [choiceListWarnings_mem opts w1 h1 w, choicesWarnings_mem rest w2 h2 w]
+
+def gstep (acc : List (Str × List (Nat × PRow))) (nr : Nat × PRow) : List (Str × List (Nat × PRow)) :=
+  match val1 nr.2 "list name" with
+  | none => acc
+  | some ln =>
+    if acc.any (fun e => e.1 = ln) then acc.map fun e => if e.1 = ln then (e.1, e.2 ++ [nr]) else e
+    else acc ++ [(ln, [nr])]
+
+theorem groupChoices_eq (rows : List (Nat × PRow)) : groupChoices rows = rows.foldl gstep [] := rfl
+
+theorem gstep_mem (acc : List (Str × List (Nat × PRow))) (nr x : Nat × PRow) :
+    (∃ g ∈ gstep acc nr, x ∈ g.2) ↔ (∃ g ∈ acc, x ∈ g.2) ∨ (x = nr ∧ (val1 nr.2 "list name").isSome = true) := by
+  unfold gstep
+  cases hln : val1 nr.2 "list name" with
+  | none => simp
+  | some ln =>
+    simp only [Option.isSome_some, and_true]
+    split
+    · rename_i hany
+      simp only [List.any_eq_true, decide_eq_true_eq] at hany
+      obtain ⟨e0, he0, hk0⟩ := hany
+      constructor
+      · rintro ⟨g, hg, hx⟩
+        rw [List.mem_map] at hg
+        obtain ⟨e, he, rfl⟩ := hg
+        by_cases hk : e.1 = ln
+        · simp only [hk, if_true, List.mem_append, List.mem_singleton] at hx
+          rcases hx with hx | hx
+          · exact Or.inl ⟨e, he, hx⟩
+          · exact Or.inr hx
+        · simp only [hk, if_false] at hx
+          exact Or.inl ⟨e, he, hx⟩
+      · rintro (⟨g, hg, hx⟩ | rfl)
+        · refine ⟨_, List.mem_map.mpr ⟨g, hg, rfl⟩, ?_⟩
+          by_cases hk : g.1 = ln
+          · simp [hk, hx]
+          · simp [hk, hx]
+        · exact ⟨_, List.mem_map.mpr ⟨e0, he0, rfl⟩, by simp [hk0]⟩
+    · constructor
+      · rintro ⟨g, hg, hx⟩
+        rw [List.mem_append, List.mem_singleton] at hg
+        rcases hg with hg | rfl
+        · exact Or.inl ⟨g, hg, hx⟩
+        · exact Or.inr (by simpa using hx)
+      · rintro (⟨g, hg, hx⟩ | rfl)
+        · exact ⟨g, List.mem_append_left _ hg, hx⟩
+        · exact ⟨(ln, [x]), by simp, by simp⟩
+
+theorem foldl_gstep_mem : ∀ (rows : List (Nat × PRow)) (acc : List (Str × List (Nat × PRow))) (x : Nat × PRow),
+    (∃ g ∈ rows.foldl gstep acc, x ∈ g.2) ↔
+      (∃ g ∈ acc, x ∈ g.2) ∨ (x ∈ rows ∧ (val1 x.2 "list name").isSome = true)
+  | [], acc, x => by simp
+  | nr :: rows, acc, x => by
+    simp only [List.foldl_cons, foldl_gstep_mem rows (gstep acc nr) x, gstep_mem, List.mem_cons]
+    constructor
+    · rintro ((h | ⟨rfl, h⟩) | ⟨h1, h2⟩)
+      · exact Or.inl h
+      · exact Or.inr ⟨Or.inl rfl, h⟩
+      · exact Or.inr ⟨Or.inr h1, h2⟩
+    · rintro (h | ⟨rfl | h1, h2⟩)
+      · exact Or.inl (Or.inl h)
+      · exact Or.inl (Or.inr ⟨rfl, h2⟩)
+      · exact Or.inr ⟨h1, h2⟩
+
+
+/-! ### or_other × translations -/
+
+theorem addSeen_keys_nodup (seen : List (Str × List Str)) (l n : Str) (h : (seen.map (·.1)).Nodup) :
+    ((addSeen seen l n).map (·.1)).Nodup := by
+  unfold addSeen
+  split
+  · have : (seen.map fun e => if e.1 = l then (e.1, e.2 ++ [n]) else e).map (·.1) = seen.map (·.1) := by
+      rw [List.map_map]; apply List.map_congr_left; intro e _; simp only [Function.comp]; split <;> rfl
+    rw [this]; exact h
+  · rename_i hany
+    simp only [List.any_eq_true, decide_eq_true_eq, not_exists, not_and] at hany
+    rw [List.map_append, List.nodup_append]
+    refine ⟨h, by simp, ?_⟩
+    intro a ha b hb
+    simp only [List.map_cons, List.map_nil, List.mem_singleton] at hb
+    rw [List.mem_map] at ha
+    obtain ⟨e, he, rfl⟩ := ha
+    rw [hb]; exact hany e he
+
+theorem trHead_keys_nodup (tbl : Aliases) (t : Tr) (hd : List Str) (h : (t.seen.map (·.1)).Nodup) :
+    ((trHead tbl t hd).seen.map (·.1)).Nodup := by
+  unfold trHead
+  split
+  · exact h
+  · split
+    · exact h
+    · simp only
+      split
+      · exact addSeen_keys_nodup _ _ _ h
+      · exact addSeen_keys_nodup _ _ _ h
+      · exact h
+
+theorem findTranslations_keys_nodup (tbl : Aliases) (hs : List (List Str)) :
+    ((findTranslations tbl hs).seen.map (·.1)).Nodup := by
+  unfold findTranslations
+  have : ∀ (hs : List (List Str)) (t : Tr), (t.seen.map (·.1)).Nodup →
+      ((hs.foldl (fun t h => trHead tbl t (trStrip h)) t).seen.map (·.1)).Nodup := by
+    intro hs
+    induction hs with
+    | nil => intro t h; exact h
+    | cons hd tl ih => intro t h; exact ih _ (trHead_keys_nodup tbl t _ h)
+  exact this hs {} (by simp)
+
+/-- `seen_default_only()` says exactly that no translatable column carries a language -/
+theorem seenDefaultOnly_iff (t : Tr) (ps : List (Str × Str)) (inv : TrInv t ps)
+    (hnd : (t.seen.map (·.1)).Nodup) : seenDefaultOnly t = !translated ps := by
+  have hkeys := inv.keys
+  cases hseen : t.seen with
+  | nil =>
+    have : ∀ p ∈ ps, False := by
+      intro p hp
+      obtain ⟨e, he, _⟩ := (hkeys p.2).mpr ⟨p.1, hp⟩
+      rw [hseen] at he; cases he
+    have hps : ps = [] := by
+      cases ps with
+      | nil => rfl
+      | cons p _ => exact (this p (by simp)).elim
+    simp [seenDefaultOnly, hseen, translated, hps]
+  | cons e rest =>
+    by_cases htr : translated ps = true
+    · -- some language other than default is used: either the head key or a second key
+      simp only [translated, List.any_eq_true, decide_eq_true_eq] at htr
+      obtain ⟨p, hp, hne⟩ := htr
+      obtain ⟨e', he', hk'⟩ := (hkeys p.2).mpr ⟨p.1, hp⟩
+      have : seenDefaultOnly t = false := by
+        simp only [seenDefaultOnly, hseen, List.isEmpty_cons, Bool.false_or, Bool.and_eq_false_iff]
+        by_cases hlen : rest = []
+        · left
+          subst hlen
+          rw [hseen] at he'
+          simp only [List.mem_singleton] at he'
+          subst he'
+          simp [hk', hne]
+        · right
+          cases rest with
+          | nil => exact absurd rfl hlen
+          | cons _ _ => simp
+      simp [this, translated, List.any_eq_true]
+      exact ⟨p.1, p.2, hp, hne⟩
+    · have htr' : translated ps = false := by simpa using htr
+      -- every key is `default`, keys are distinct: exactly one entry
+      have hall : ∀ e' ∈ t.seen, e'.1 = defaultLang := by
+        intro e' he'
+        obtain ⟨c, hc⟩ := (hkeys e'.1).mp ⟨e', he', rfl⟩
+        simp only [translated, List.any_eq_false, decide_eq_true_eq] at htr'
+        exact Classical.byContradiction fun hne => htr' _ hc hne
+      have hrest : rest = [] := by
+        cases rest with
+        | nil => rfl
+        | cons e2 r2 =>
+          rw [hseen] at hnd hall
+          simp only [List.map_cons, List.nodup_cons, List.mem_cons, not_or] at hnd
+          have h1 := hall e (by simp)
+          have h2 := hall e2 (by simp)
+          exact absurd (h1.trans h2.symm) hnd.1.1
+      have he := hall e (by rw [hseen]; simp)
+      simp [seenDefaultOnly, hseen, hrest, he, htr']
+
+
 end Pyxv.Warn
